@@ -2,10 +2,12 @@ package lib
 
 import (
 	"context"
+	"encoding/json"
 	"errors"
 	"fmt"
 	"io"
 	"math/rand"
+	"os"
 	"sort"
 	"strings"
 	"sync"
@@ -607,6 +609,33 @@ func (e *Explorer) Explore(t *testing.T, rep *Report) {
 	start := time.Now()
 	if e.Sc.Prepare != nil {
 		e.Sc.Prepare(t)
+	}
+	// replay mode: re-execute exactly one recorded schedule of this scenario, without the explorer
+	if rf := os.Getenv("VERIF_REPLAY"); rf != "" {
+		var doc struct {
+			Replay struct {
+				Scenario string `json:"scenario"`
+				Choices  []int  `json:"choices"`
+			} `json:"replay"`
+		}
+		if b, err := os.ReadFile(rf); err == nil && json.Unmarshal(b, &doc) == nil && doc.Replay.Scenario == e.Sc.Name {
+			x := RunExec(t, e.Sc, doc.Replay.Choices)
+			if x.Diverged != "" {
+				t.Fatalf("replay diverged: %s", x.Diverged)
+			}
+			e.Execs++
+			rep.Eval(1)
+			rep.AddStates(int64(len(x.Steps)), int64(len(x.Steps)), 1)
+			fmt.Printf("REPLAY scenario=%s steps=%d outcome=%q\n", e.Sc.Name, len(x.Steps), x.outcome)
+			for _, line := range x.Trace() {
+				fmt.Println("  " + line)
+			}
+			for _, v := range x.viol {
+				rep.Violate(v.sig, v.detail, map[string]interface{}{"scenario": e.Sc.Name, "choices": x.Choices, "trace": x.Trace()})
+			}
+			rep.Sample(map[string]interface{}{"replayed": rf})
+		}
+		return
 	}
 	// determinism proof: the default schedule twice, identical observations
 	a, b := RunExec(t, e.Sc, nil), RunExec(t, e.Sc, nil)
